@@ -89,6 +89,8 @@ func smtpContainsCall(n ast.Node, fun string) bool {
 	return found
 }
 
+func smtpSrcNoArgs(n ast.Node) string { return src(n) }
+
 func extractSmtp() {
 	g := gen("Smtp")
 	f := parse("pkg/server/smtp/handler.go")
@@ -221,12 +223,35 @@ func extractSmtp() {
 	dl := fn(mf, "StoreManager", "Deliver")
 	deliverFacts := []string{}
 	if dl != nil {
-		b := src(dl.Body)
-		for _, needle := range []string{"enmime.DecodeHeaders(source)", "s.ExtHost.Events.BeforeMessageStored.Emit(inbound)", "recip.ShouldStore()", "s.Store.AddMessage(delivery)",
-			"s.ExtHost.Events.AfterMessageStored.Emit(&event)", `fmt.Sprintf("%s  for <%s>; %s\r\n", recvdHeader, mb, tstamp)`, `fmt.Sprintf("Return-Path: <%s>\r\n", from.Address.Address)`,
-			"io.MultiReader(strings.NewReader(returnPath), strings.NewReader(recvd), bytes.NewReader(source))"} {
-			if strings.Contains(b, needle) {
-				deliverFacts = append(deliverFacts, needle)
+		// structure, not spelling: which calls and which format literals occur (local variable names may change freely)
+		calls := map[string]bool{}
+		lits := map[string]bool{}
+		ast.Inspect(dl.Body, func(x ast.Node) bool {
+			switch e := x.(type) {
+			case *ast.CallExpr:
+				f := smtpSrcNoArgs(e.Fun)
+				for _, suffix := range []string{"enmime.DecodeHeaders", ".BeforeMessageStored.Emit", ".ShouldStore", ".Store.AddMessage", ".AfterMessageStored.Emit", "io.MultiReader", "fmt.Sprintf"} {
+					if strings.HasSuffix(f, suffix) || f == suffix {
+						calls[suffix] = true
+					}
+				}
+			case *ast.BasicLit:
+				if e.Kind == token.STRING {
+					if v, err := strconv.Unquote(e.Value); err == nil {
+						lits[v] = true
+					}
+				}
+			}
+			return true
+		})
+		for _, k := range []string{"enmime.DecodeHeaders", ".BeforeMessageStored.Emit", ".ShouldStore", ".Store.AddMessage", ".AfterMessageStored.Emit", "io.MultiReader"} {
+			if calls[k] {
+				deliverFacts = append(deliverFacts, "call "+k)
+			}
+		}
+		for _, k := range []string{"%s  for <%s>; %s\r\n", "Return-Path: <%s>\r\n"} {
+			if lits[k] {
+				deliverFacts = append(deliverFacts, "format "+k)
 			}
 		}
 	}
